@@ -198,6 +198,17 @@ def run_base(ctx, model, scico):
         if impl[0] == "ok" and np.isinf(impl[1]):
             ctx.count("base:value=+inf")
         _check(ctx, "feval." + leaf["kind"], case, impl, mod, formula)
+        # exact-arithmetic stream: on real dyadic data these kinds involve only exactly representable sums / products
+        # (no sqrt, no division by a non-power of two), so code, model and formula must agree to the last bit
+        if (not cplx) and leaf["kind"] in EXACT_KINDS and impl[0] == "ok" and mod[0] == "ok" and formula is not None:
+            ctx.count("base:exact (bit-for-bit) comparison")
+            if not (impl[1] == mod[1] == formula or (np.isinf(impl[1]) and np.isinf(mod[1]) and np.isinf(formula))):
+                ctx.disagree("feval.exact." + leaf["kind"], case, impl[1], [mod[1], formula],
+                             oracle=lambda _c, impl=impl, formula=formula: {"what": "value differs from the exactly computable documented value",
+                                                                            "impl": repr(impl[1]), "formula": repr(formula)})
+
+
+EXACT_KINDS = {"zero", "l0", "l1", "sql2", "hubers", "nonneg"}
 
 
 def run_l21_axes(ctx, model, scico):
@@ -539,7 +550,14 @@ def run_proxavg(ctx, model, scico):
                  ("proxavg", tuple(d["kind"] for d in leaves), alphas is not None, noinf))
         ctx.count("proxavg:" + ("constructed" if built[0] == "ok" else "rejected"))
         if (built[0] == "ok") != ok_ctor:
-            ctx.disagree("proxavg.ctor", case, list(built)[:1], ok_ctor)
+            def ctor_oracle(_c, built=built, alphas=alphas, n=n, objs=objs):
+                if built[0] == "ok" and alphas is not None and len(alphas) != n:
+                    return {"what": "ProximalAverage accepted an alpha_list whose length differs from func_list (documented: must have the same length)",
+                            "len(alpha_list)": len(alphas), "len(func_list)": n, "stored weights": [float(a_) for a_ in built[1].alpha_list]}
+                if built[0] == "ok" and not all(o.has_prox for o in objs):
+                    return {"what": "ProximalAverage accepted a functional without prox"}
+                return None
+            ctx.disagree("proxavg.ctor", case, list(built)[:1], ok_ctor, oracle=ctor_oracle)
             continue
         if built[0] != "ok":
             if built[1] != "value":
